@@ -4,8 +4,8 @@
 pub uninterp spec fn compact(t: Ty) -> Seq<char>;
 #[verifier::external_body] pub proof fn compact_injective(a: Ty, b: Ty) requires compact(a) == compact(b) ensures a == b { }
 #[verifier::external_body] pub fn ty_compact(ty: &Ty) -> (r: String) ensures r@ == compact(*ty) { unimplemented!() }
-// go::mangle::encode_ty: the Go-identifier spelling of a type.  NOT injective — tuples are flattened without arity (`(a,(b,c),d)` and `(a,(b,c,d))` are both
-// Tuple_a_Tuple_b_c_d), `Opt[int32]` and a type named `Opt_int32` coincide — so there is no injectivity lemma for it
+// go::mangle::encode_ty: the Go-identifier spelling of a type.  NOT injective — `Opt[int32]` and a type named `Opt_int32` coincide, a function type's parameter list has no
+// arity (and until fix 5b85282 tuples were flattened without theirs: U-ENCODETY) — so there is no injectivity lemma for it
 pub uninterp spec fn encoded(t: Ty) -> Seq<char>;
 #[verifier::external_body] pub fn encode_ty(ty: &Ty) -> (r: String) ensures r@ == encoded(*ty) { unimplemented!() }
 pub proof fn cat_cancel(a: Seq<char>, x: Seq<char>, y: Seq<char>, b: Seq<char>) requires a + x + b == a + y + b ensures x == y {
